@@ -291,3 +291,69 @@ Definition q_own (r : rqid) (q : req) : bool :=
   | QDone (RVal f) => Nat.eqb (fown f) r
   | _ => true
   end.
+
+(* ------------------------------------------------------------------------------------
+   Monitors on a recorded wire journal (harness op trlate).  These are the implementation-
+   side counterparts of what the model guarantees (Proofs/TransportPoolOwn.v):
+     mon_ids      ids of the requests of one connection are strictly increasing — the model
+                  fact the own-response theorem RELIES on (C06_pool_ids_increasing: a
+                  connection never uses an ordinal twice), together with the id check;
+     mon_fail     a connection that carried a failed exchange carries no further request
+                  (C06_pool_failed_conn_final: CClosed is absorbing) — NOT needed by the
+                  own-response theorem (the model's broker may send stale frames anyway),
+                  but it is the mechanism the property's anchors name;
+     mon_delivery every value delivered to a call is the answer the broker computed for that
+                  call's own request, and such an answer was written (the predicate q_own). *)
+Record jreq := mkJreq { jq_conn : nat; jq_id : Z; jq_call : option nat }.
+Record jans := mkJans { ja_conn : nat; ja_id : Z; ja_call : nat }.
+Record jres := mkJres { jr_class : nat; jr_got : option nat }.   (* class 1 value / 2 nil / 3 error *)
+
+Fixpoint assocZ (c : nat) (l : list (nat * Z)) {struct l} : option Z :=
+  match l with
+  | [] => None
+  | (c', z) :: l' => if Nat.eqb c' c then Some z else assocZ c l'
+  end.
+
+Fixpoint mon_ids_from (seen : list (nat * Z)) (qs : list jreq) {struct qs} : bool :=
+  match qs with
+  | [] => true
+  | q :: qs' =>
+    match assocZ (jq_conn q) seen with
+    | Some prev => prev <? jq_id q
+    | None => true
+    end && mon_ids_from ((jq_conn q, jq_id q) :: seen) qs'
+  end.
+Definition mon_ids (qs : list jreq) : bool := mon_ids_from [] qs.
+
+Definition call_failed (res : list jres) (k : nat) : bool :=
+  match nth_error res k with Some r => Nat.eqb (jr_class r) 3 | None => false end.
+
+Definition same_call (k : nat) (q : jreq) : bool :=
+  match jq_call q with Some k' => Nat.eqb k k' | None => false end.
+
+(* the failed exchange of a failed call is the last request it put on the wire *)
+Fixpoint mon_fail_from (dead : list nat) (res : list jres) (qs : list jreq) {struct qs} : bool :=
+  match qs with
+  | [] => true
+  | q :: qs' =>
+    negb (mem (jq_conn q) dead) &&
+    mon_fail_from
+      (match jq_call q with
+       | Some k => if call_failed res k && negb (existsb (same_call k) qs') then jq_conn q :: dead else dead
+       | None => dead
+       end) res qs'
+  end.
+Definition mon_fail (res : list jres) (qs : list jreq) : bool := mon_fail_from [] res qs.
+
+Fixpoint mon_delivery_from (i : nat) (res : list jres) (ans : list jans) {struct res} : bool :=
+  match res with
+  | [] => true
+  | r :: res' =>
+    (if Nat.eqb (jr_class r) 1
+     then match jr_got r with
+          | Some j => Nat.eqb j i && existsb (fun a => Nat.eqb (ja_call a) i) ans
+          | None => false
+          end
+     else true) && mon_delivery_from (S i) res' ans
+  end.
+Definition mon_delivery (res : list jres) (ans : list jans) : bool := mon_delivery_from 0 res ans.
